@@ -49,6 +49,8 @@ def case_strategy(draw, tier):
         # the table's row labels (the DataFrame index) are not part of the tree: the default 0..n-1, or what is left after
         # the caller shuffled / filtered / re-labelled the rows of a bigger table
         case["index"] = draw(st.sampled_from(["default", "default", "permuted", "offset", "strings", "reversed"]))
+        # a sparse annotation: one and the same value on a few nodes, nothing (NaN) on all others
+        case["sparse_col"] = draw(st.integers(0, 2)) == 0
         # a further extra column of 64-bit integers beyond 2^53 (time stamps, database keys): carried exactly
         case["big_ints"] = draw(st.integers(0, 2)) == 0
     if form != "tree":
@@ -175,6 +177,16 @@ def run_case(case, ctx):
             for k in got:
                 ctx.check(again.get_ndata(k).tolist() == got[k], "tree/resort-fixed-point",
                           f"column {k} changed by sorting a sorted chain")
+        if n >= 2:
+            # the caller edits the first result in place (re-parents a node, renumbers) and sorts the same input again:
+            # the new result is made from the input, whatever happened to the old one
+            out.node(n - 1).pid = 0
+            out.ndata["id"][...] = 77
+            for col in ("x", "tag"):
+                out.ndata[col][...] = 0
+            out3 = sort_tree(tree)
+            _check_relabelling(ctx, t, _tree_cols(out3), "tree/sorted-again-after-the-first-result-was-edited")
+            ctx.cls("sorted-again-after-the-first-result-was-edited")
         return
 
     ids, rows = case["ids"], case["rows"]
@@ -202,6 +214,10 @@ def run_case(case, ctx):
             ctx.cls("extra-column-of-64-bit-integers")
         if max(ids) >= 2 ** 31:
             ctx.cls("ids-beyond-2^31")
+        if case.get("sparse_col"):
+            marked = {node for node in range(n) if (node * 7 + n) % 4 == 0}
+            cols["mark"] = [0.75 if node in marked else float("nan") for node in rows]
+            ctx.cls("sparse-extra-column-with-a-single-value")
         df = pd.DataFrame(cols)
         how_index = case.get("index", "default")
         if how_index != "default" and n >= 2:
@@ -227,6 +243,12 @@ def run_case(case, ctx):
                   lambda: f"{list(out.columns)}")
         got = {c: out[c].tolist() for c in out.columns}
         _check_relabelling(ctx, t, got, form)
+        if case.get("sparse_col"):
+            node_of_tag = {tg: i for i, tg in enumerate(t["tag"])}
+            want_marks = [node_of_tag[int(tg)] in marked for tg in got["tag"]]
+            got_marks = [v == 0.75 for v in got["mark"]]
+            ctx.check(got_marks == want_marks and all(v == 0.75 or v != v for v in got["mark"]), f"{form}/column-carried",
+                      lambda: f"sparse column: marked rows {[i for i, v in enumerate(got_marks) if v]}, expected {[i for i, v in enumerate(want_marks) if v]}")
         if case.get("big_ints"):
             node_of_tag = {tg: i for i, tg in enumerate(t["tag"])}
             ctx.check(str(out["big"].dtype) == "int64" and [int(v) for v in got["big"]] == [big_of_node[node_of_tag[int(tg)]] for tg in got["tag"]],
@@ -273,5 +295,6 @@ SUBCHECKS = [
                   "one-array-under-two-column-names": 80, "rows:parents-first-ids-not-growing": 200,
                   "rows:dense-ids-root-min-first": 100, "extra-column-of-64-bit-integers": 100,
                   "ids-beyond-2^31": 50, "file:reset_index=False": 60, "extra-column-under-an-eswc-name": 60,
-                  "table-with-row-labels-other-than-0..n-1": 200}),
+                  "table-with-row-labels-other-than-0..n-1": 200, "sparse-extra-column-with-a-single-value": 150,
+                  "sorted-again-after-the-first-result-was-edited": 200}),
 ]
